@@ -478,6 +478,7 @@ func runC07(c *Ctx) {
 			kind  ast.Expr // K of `v.Kind() != K`
 			stop  ast.Expr // C of `if C { break }` (nil: never stops)
 			inLit *ast.FuncLit
+			index *ast.CallExpr // slices.IndexFunc(tracks, func(v) bool { return v.Kind() == K }): the first match
 		}
 		var sels []selection
 		var walkSel func(n ast.Node, lit *ast.FuncLit)
@@ -486,6 +487,67 @@ func runC07(c *Ctx) {
 				if fl, ok := n.(*ast.FuncLit); ok && n != root {
 					walkSel(fl.Body, fl)
 					return false
+				}
+				// i := slices.IndexFunc(tracks, func(v T) bool { return v.Kind() == K }), the
+				// index used only as `i < 0` / `i >= 0` / `i == -1` and `tracks[i]`
+				if call, isCall := n.(*ast.CallExpr); isCall && len(call.Args) == 2 && lit == nil {
+					if f := calleeOf(&CallSite{Call: call, In: rt}); f != nil && f.Pkg() != nil && f.Pkg().Path() == "slices" && f.Name() == "IndexFunc" {
+						if id, isId := unparen(call.Args[0]).(*ast.Ident); isId && info.Uses[id] == tracksObj && tracksObj != nil {
+							okForm := false
+							var kind ast.Expr
+							if pl, isLit := unparen(call.Args[1]).(*ast.FuncLit); isLit && len(pl.Body.List) == 1 && len(pl.Type.Params.List) == 1 && len(pl.Type.Params.List[0].Names) == 1 {
+								if ret, isRet := pl.Body.List[0].(*ast.ReturnStmt); isRet && len(ret.Results) == 1 {
+									pobj := info.Defs[pl.Type.Params.List[0].Names[0]]
+									if be, isB := unparen(ret.Results[0]).(*ast.BinaryExpr); isB && be.Op == token.EQL {
+										if kc, isC := unparen(be.X).(*ast.CallExpr); isC && len(kc.Args) == 0 {
+											if se, isS := unparen(kc.Fun).(*ast.SelectorExpr); isS && se.Sel.Name == "Kind" {
+												if rid, isR := unparen(se.X).(*ast.Ident); isR && info.Uses[rid] == pobj {
+													okForm, kind = true, be.Y
+												}
+											}
+										}
+									}
+								}
+							}
+							// the uses of the index
+							var iobj types.Object
+							if as, isAs := p.Parent(rt.File, call).(*ast.AssignStmt); isAs && len(as.Lhs) == 1 && len(as.Rhs) == 1 {
+								if iid, isI := as.Lhs[0].(*ast.Ident); isI {
+									iobj = info.ObjectOf(iid)
+								}
+							}
+							if iobj == nil {
+								okForm = false
+							} else {
+								ast.Inspect(rt.Body(), func(m ast.Node) bool {
+									uid, isU := m.(*ast.Ident)
+									if !isU || info.Uses[uid] != iobj {
+										return true
+									}
+									switch par := p.Parent(rt.File, uid).(type) {
+									case *ast.IndexExpr:
+										if bid, isB := unparen(par.X).(*ast.Ident); !isB || info.Uses[bid] != tracksObj || par.Index != ast.Expr(uid) {
+											okForm = false
+										}
+									case *ast.BinaryExpr:
+										tv := info.Types[par.Y]
+										if par.X != ast.Expr(uid) || tv.Value == nil || !((par.Op == token.LSS || par.Op == token.GEQ) && tv.Value.String() == "0" || (par.Op == token.EQL || par.Op == token.NEQ) && tv.Value.String() == "-1") {
+											okForm = false
+										}
+									default:
+										okForm = false
+									}
+									return true
+								})
+							}
+							if okForm {
+								sels = append(sels, selection{kind: kind, index: call})
+							} else {
+								seen["other:IndexFunc at "+p.PosStr(call.Pos())] = true
+							}
+							return false
+						}
+					}
 				}
 				rs, ok := n.(*ast.RangeStmt)
 				if !ok {
@@ -604,6 +666,9 @@ func runC07(c *Ctx) {
 			kind := types.ExprString(resolve(sel.kind))
 			// first: the loop stops at the first match
 			first, known := false, true
+			if sel.index != nil {
+				first = true
+			}
 			if sel.stop != nil {
 				e := unparen(sel.stop)
 				neg := false
@@ -637,6 +702,10 @@ func runC07(c *Ctx) {
 			}
 		}
 		for _, sel := range sels {
+			if sel.index != nil {
+				classify(sel, nil, sel.index)
+				continue
+			}
 			if sel.inLit == nil {
 				classify(sel, nil, sel.loop.X)
 				continue
@@ -877,6 +946,73 @@ func runC07Pairing(c *Ctx) {
 			}
 			return true
 		})
+		// or: the deferred close is switched off by a flag (`if replace != "" && !offered`);
+		// the flag becomes true only where that negotiation succeeded
+		if nclr == 0 && dfr != nil {
+			flags := map[types.Object]bool{}
+			fl := dfr.Call.Fun.(*ast.FuncLit)
+			ast.Inspect(fl.Body, func(m ast.Node) bool {
+				ifs, ok := m.(*ast.IfStmt)
+				if !ok {
+					return true
+				}
+				ast.Inspect(ifs.Cond, func(k ast.Node) bool {
+					if u, ok := k.(*ast.UnaryExpr); ok && u.Op == token.NOT {
+						if id, ok := unparen(u.X).(*ast.Ident); ok {
+							if v, ok := info.Uses[id].(*types.Var); ok && !v.IsField() {
+								if bt, ok := v.Type().Underlying().(*types.Basic); ok && bt.Kind() == types.Bool {
+									flags[v] = true
+								}
+							}
+						}
+					}
+					return true
+				})
+				return true
+			})
+			var neg *ast.CallExpr
+			ast.Inspect(pd.Body(), func(m ast.Node) bool {
+				if call, ok := m.(*ast.CallExpr); ok && fnIs(calleeOf(&CallSite{Call: call, In: pd}), "rtpconn", "", "negotiate") && len(call.Args) == 4 {
+					if rid, ok := unparen(call.Args[3]).(*ast.Ident); ok && info.Uses[rid] == repl {
+						neg = call
+					}
+				}
+				return true
+			})
+			okClear = len(flags) > 0
+			ast.Inspect(pd.Body(), func(n ast.Node) bool {
+				if _, isLit := n.(*ast.FuncLit); isLit {
+					return false
+				}
+				as, ok := n.(*ast.AssignStmt)
+				if !ok {
+					return true
+				}
+				for i, l := range as.Lhs {
+					id, ok := l.(*ast.Ident)
+					if !ok || !flags[info.ObjectOf(id)] {
+						continue
+					}
+					if len(as.Rhs) != len(as.Lhs) {
+						okClear = false
+						continue
+					}
+					rhs := unparen(as.Rhs[i])
+					if tv := info.Types[rhs]; tv.Value != nil && tv.Value.String() == "false" {
+						continue
+					}
+					nclr = 1
+					st, _ := ff.At(as)
+					if st != nil {
+						st = ff.assume(st, rhs, true)
+					}
+					if neg == nil || st == nil || !st.HasFact(mkFact(true, "eq", TNil(), &Term{K: 'r', Name: "res0", Pos: neg.Lparen})) {
+						okClear = false
+					}
+				}
+				return true
+			})
+		}
 		c.Check(okClear && nclr == 1, "R7.6", "pushDownConn: the replacement is consumed only by a successful offer that names it", pd.Pos(), "replace = \"\" only after negotiate(..., replace) returned nil", "the replaced id is forgotten without having been announced as replaced: neither a replace nor a close reaches the subscriber")
 	} else {
 		c.Unknown("R7.6", "anchor pushDownConn", 0, "not found")
